@@ -207,3 +207,385 @@ theorem pend_barrier (cfg : Cfg σ) (s : State σ) (p : Pend σ) (hc : Core cfg 
       exact hp.pre a b ha hb haa' hbb k sp hk hs
   · intro o ho
     exact absurd ho (hno o)
+
+/-- the bookkeeping of one delivery, for `projI` and for `preProj` alike -/
+theorem deliver_shift (cfg : Cfg σ) (s : State σ) (P : Nat → Nat → List Item → List Nat)
+    (hP : ∀ k sp e t, P k sp (Item.ev e :: t) = (if e.key = k ∧ e.split = sp then [e.idx] else []) ++ P k sp t)
+    (r o : Nat) (e : Entry) (rest : List Item) (hq : s.queue r o = Item.ev e :: rest)
+    (he1 : cfg.route s.n e.key = o) (he2 : cfg.assign s.n e.split = r) (k sp : Nat) (X : List Nat)
+    (h : idxOf sp (s.log (cfg.route s.n k) k) ++ P k sp (s.queue (cfg.assign s.n sp) (cfg.route s.n k)) = X) :
+    idxOf sp (if cfg.route s.n k = o ∧ k = e.key then s.log o e.key ++ [(e.split, e.idx)]
+        else s.log (cfg.route s.n k) k) ++
+      P k sp (if cfg.assign s.n sp = r ∧ cfg.route s.n k = o then rest
+        else s.queue (cfg.assign s.n sp) (cfg.route s.n k)) = X := by
+  by_cases hk : k = e.key
+  · subst hk
+    rw [he1] at h ⊢
+    rw [if_pos ⟨rfl, rfl⟩]
+    by_cases hr : cfg.assign s.n sp = r
+    · rw [hr] at h ⊢
+      rw [if_pos ⟨rfl, rfl⟩, idxOf_snoc]
+      rw [hq, hP] at h
+      rw [← h]
+      by_cases hs : e.split = sp <;> simp [hs]
+    · have hs : ¬ e.split = sp := fun hs => hr (by rw [← hs]; exact he2)
+      rw [if_neg (fun hh => hr hh.1), idxOf_snoc, if_neg hs, List.append_nil]
+      exact h
+  · rw [if_neg (fun hh => hk hh.2)]
+    by_cases hc : cfg.assign s.n sp = r ∧ cfg.route s.n k = o
+    · rw [if_pos hc]
+      rw [hc.1, hc.2, hq, hP, if_neg (fun hh => hk hh.1.symm), List.nil_append] at h
+      rw [hc.2]
+      exact h
+    · rw [if_neg hc]
+      exact h
+
+theorem core_deliver (cfg : Cfg σ) (s : State σ) (hc : Core cfg s) (r o : Nat) (e : Entry) (rest : List Item)
+    (hq : s.queue r o = Item.ev e :: rest) :
+    Core cfg { s with
+        queue := fun a b => if a = r ∧ b = o then rest else s.queue a b
+        log := fun a k => if a = o ∧ k = e.key then s.log o e.key ++ [(e.split, e.idx)] else s.log a k
+        st := fun a k => if a = o ∧ k = e.key then cfg.h (s.st o e.key) e else s.st a k } := by
+  have hmem : Item.ev e ∈ s.queue r o := by rw [hq]; exact List.mem_cons_self
+  obtain ⟨he1, he2, _⟩ := hc.qwf r o e hmem
+  refine ⟨?_, ?_, ?_, ?_, hc.ck⟩
+  · intro k sp
+    exact deliver_shift cfg s projI projI_cons_ev r o e rest hq he1 he2 k sp _ (hc.main k sp)
+  · intro a k hne
+    dsimp only at hne ⊢
+    split
+    · rename_i h
+      exact absurd (by rw [h.2, h.1]; exact he1) hne
+    · exact hc.own a k hne
+  · intro a b e2 hm
+    dsimp only at hm ⊢
+    split at hm
+    · rename_i h
+      rw [h.1, h.2]
+      exact hc.qwf r o e2 (by rw [hq]; exact List.mem_cons_of_mem _ hm)
+    · exact hc.qwf a b e2 hm
+  · intro a k
+    dsimp only
+    split
+    · rw [foldLog_snoc, hc.hst o e.key]
+      rename_i h
+      rw [h.2]
+    · exact hc.hst a k
+
+theorem countBar_deliver (s : State σ) (r o : Nat) (e : Entry) (rest : List Item)
+    (hq : s.queue r o = Item.ev e :: rest) (a b : Nat) :
+    countBar (if a = r ∧ b = o then rest else s.queue a b) = countBar (s.queue a b) := by
+  split
+  · rename_i h
+    rw [h.1, h.2, hq, countBar_cons_ev]
+  · rfl
+
+theorem inv_deliver (cfg : Cfg σ) (s : State σ) (hi : Inv cfg s) (r o : Nat) (e : Entry) (rest : List Item)
+    (hq : s.queue r o = Item.ev e :: rest) :
+    Inv cfg { s with
+        queue := fun a b => if a = r ∧ b = o then rest else s.queue a b
+        log := fun a k => if a = o ∧ k = e.key then s.log o e.key ++ [(e.split, e.idx)] else s.log a k
+        st := fun a k => if a = o ∧ k = e.key then cfg.h (s.st o e.key) e else s.st a k } := by
+  have hmem : Item.ev e ∈ s.queue r o := by rw [hq]; exact List.mem_cons_self
+  obtain ⟨he1, he2, _⟩ := hi.qwf r o e hmem
+  refine ⟨core_deliver cfg s hi.toCore r o e rest hq, ?_, ?_⟩
+  · intro hpn a b ha hb
+    dsimp only at hpn ha hb ⊢
+    rw [countBar_deliver s r o e rest hq]
+    exact hi.pnone hpn a b ha hb
+  · intro p hp
+    have hp0 := hi.psome p hp
+    refine ⟨hp0.npos, ?_, ?_, hp0.snap⟩
+    · intro a b ha hb
+      dsimp only at ha hb ⊢
+      rw [countBar_deliver s r o e rest hq]
+      exact hp0.cnt a b ha hb
+    · intro a b ha hb haa hbb k sp hk hs
+      dsimp only at ha hb hk hs ⊢
+      subst hk hs
+      exact deliver_shift cfg s preProj preProj_cons_ev r o e rest hq he1 he2 k sp _
+        (hp0.pre _ _ ha hb haa hbb k sp rfl rfl)
+
+theorem core_opCkpt (cfg : Cfg σ) (s : State σ) (hc : Core cfg s) (o : Nat) :
+    Core cfg { s with queue := fun a b => if b = o then dropBar (s.queue a b) else s.queue a b } := by
+  refine ⟨?_, hc.own, ?_, hc.hst, hc.ck⟩
+  · intro k sp
+    dsimp only
+    rw [← hc.main k sp]
+    split
+    · rw [projI_dropBar]
+    · rfl
+  · intro a b e he
+    dsimp only at he
+    split at he
+    · exact hc.qwf _ _ _ (mem_of_mem_dropBar he)
+    · exact hc.qwf _ _ _ he
+
+theorem pend_opCkpt (cfg : Cfg σ) (wf : cfg.WF) (s : State σ) (p : Pend σ) (hc : Core cfg s) (hp : PendOK cfg s p)
+    (o : Nat) (ho : o < s.n) (hoa : o ∉ p.oAck) (hall : ∀ r, r < s.n → ∃ t, s.queue r o = Item.bar :: t) :
+    PendOK cfg { s with queue := fun a b => if b = o then dropBar (s.queue a b) else s.queue a b }
+      { p with
+        oAck := o :: p.oAck
+        slog := fun a k => if a = o then s.log o k else p.slog a k
+        sst := fun a k => if a = o then s.st o k else p.sst a k } := by
+  have hrall : ∀ r, r < s.n → r ∈ p.rAck := by
+    intro r hr
+    obtain ⟨t, ht⟩ := hall r hr
+    have h0 := hp.cnt r o hr ho
+    rw [ht, countBar_cons_bar] at h0
+    by_cases hra : r ∈ p.rAck
+    · exact hra
+    · rw [if_neg (fun h => hra h.1)] at h0
+      omega
+  refine ⟨hp.npos, ?_, ?_, ?_⟩
+  · intro a b ha hb
+    dsimp only at ha hb ⊢
+    have h0 := hp.cnt a b ha hb
+    by_cases hbo : b = o
+    · subst hbo
+      obtain ⟨t, ht⟩ := hall a ha
+      rw [if_pos rfl, ht]
+      rw [ht, countBar_cons_bar, if_pos ⟨hrall a ha, hoa⟩] at h0
+      simp only [dropBar, List.mem_cons, true_or, not_true_eq_false, and_false, if_false]
+      omega
+    · rw [if_neg hbo, h0]
+      simp [hbo]
+  · intro a b ha hb haa hbb k sp hk hs
+    dsimp only at ha hb haa hbb hk hs ⊢
+    have hbo : b ≠ o := fun h => hbb (by rw [h]; exact List.mem_cons_self)
+    have hbb' : b ∉ p.oAck := fun h => hbb (List.mem_cons_of_mem _ h)
+    rw [if_neg hbo]
+    exact hp.pre a b ha hb haa hbb' k sp hk hs
+  · intro b hb
+    dsimp only at hb ⊢
+    by_cases hbo : b = o
+    · subst hbo
+      refine ⟨ho, hrall, ?_, ?_⟩
+      · intro k sp hk
+        rw [if_pos rfl]
+        have hr : cfg.assign s.n sp < s.n := wf.assign_lt s.n sp hp.npos
+        obtain ⟨t, ht⟩ := hall _ hr
+        have h1 := hp.pre _ b hr ho (hrall _ hr) hoa k sp hk rfl
+        rw [ht, preProj_cons_bar, List.append_nil] at h1
+        exact h1
+      · intro k
+        rw [if_pos rfl, if_pos rfl]
+        exact hc.hst b k
+    · have hb' : b ∈ p.oAck := by
+        rcases List.mem_cons.1 hb with h | h
+        · exact absurd h hbo
+        · exact h
+      simp only [if_neg hbo]
+      exact hp.snap b hb'
+
+theorem inv_restore (cfg : Cfg σ) (s : State σ) (hc : Core cfg s) (c : Option (Ckpt σ))
+    (hck : ∀ c', c = some c' → CkptOK cfg c') (n' : Nat) (job : Bool) :
+    Inv cfg (restore cfg s c n' job) := by
+  have hckw : ∀ c', (c' ∈ (if job = true then [] else s.writing) ∨ c' ∈ s.published) → CkptOK cfg c' := by
+    intro c' h
+    rcases h with h | h
+    · cases job
+      · exact hc.ck c' (Or.inl h)
+      · cases h
+    · exact hc.ck c' (Or.inr h)
+  cases c with
+  | none =>
+    refine ⟨⟨?_, ?_, ?_, ?_, hckw⟩, ?_, ?_⟩
+    · intro k sp; rfl
+    · intro o k _; rfl
+    · intro r o e he; cases he
+    · intro o k; rfl
+    · intro _ r o _ _; rfl
+    · intro p hp; cases hp
+  | some c =>
+    obtain ⟨_, h2, h3⟩ := hck c rfl
+    refine ⟨⟨?_, ?_, ?_, ?_, hckw⟩, ?_, ?_⟩
+    · intro k sp
+      simp only [restore, if_true, projI_nil, List.append_nil]
+      exact h2 k sp
+    · intro o k hne
+      simp only [restore] at hne ⊢
+      rw [if_neg hne]
+    · intro r o e he; cases he
+    · intro o k
+      simp only [restore]
+      split
+      · exact h3 k
+      · rfl
+    · intro _ r o _ _; rfl
+    · intro p hp; cases hp
+
+theorem inv_init (cfg : Cfg σ) : Inv cfg (init cfg) := by
+  refine ⟨⟨?_, ?_, ?_, ?_, ?_⟩, ?_, ?_⟩
+  · intro k sp; rfl
+  · intro o k _; rfl
+  · intro r o e he; cases he
+  · intro o k; rfl
+  · intro c h
+    rcases h with h | h <;> cases h
+  · intro _ r o _ _; rfl
+  · intro p hp; cases hp
+
+theorem inv_step (cfg : Cfg σ) (wf : cfg.WF) (s s' : State σ) (a : Act) (g : List (Given σ)) (hi : Inv cfg s)
+    (h : step cfg s a = some (s', g)) : Inv cfg s' := by
+  cases a with
+  | read sp =>
+    simp only [step] at h
+    split at h
+    · cases h
+      exact inv_read cfg s hi sp
+    · cases h
+  | start =>
+    simp only [step] at h
+    split at h
+    · cases h
+    · rename_i hpn
+      split at h
+      · rename_i hn
+        cases h
+        exact inv_start cfg s hi hpn hn
+      · cases h
+  | barrier r =>
+    simp only [step] at h
+    split at h
+    · cases h
+    · rename_i p hp
+      split at h
+      · rename_i hr
+        cases h
+        have hp0 := hi.psome p hp
+        exact inv_settle cfg wf _ _ (core_barrier cfg s hi.toCore r)
+          (pend_barrier cfg s p hi.toCore hp0 r hr.1 hr.2)
+      · cases h
+  | deliver r o =>
+    simp only [step] at h
+    split at h
+    · rename_i e rest hq
+      cases h
+      exact inv_deliver cfg s hi r o e rest hq
+    · cases h
+  | opCkpt o =>
+    simp only [step] at h
+    split at h
+    · cases h
+    · rename_i p hp
+      split at h
+      · rename_i hr
+        cases h
+        have hp0 := hi.psome p hp
+        have hall : ∀ r, r < s.n → ∃ t, s.queue r o = Item.bar :: t := by
+          intro r hr'
+          have := List.all_eq_true.1 hr.2.2 r (List.mem_range.2 hr')
+          exact head_bar_cases this
+        exact inv_settle cfg wf _ _ (core_opCkpt cfg s hi.toCore o)
+          (pend_opCkpt cfg wf s p hi.toCore hp0 o hr.1 hr.2.1 hall)
+      · cases h
+  | publish i =>
+    simp only [step] at h
+    split at h
+    · rename_i c hc
+      cases h
+      have hcm : c ∈ s.writing := List.mem_of_getElem? hc
+      refine ⟨⟨hi.main, hi.own, hi.qwf, hi.hst, ?_⟩, hi.pnone,
+        fun p hp => ⟨(hi.psome p hp).npos, (hi.psome p hp).cnt, (hi.psome p hp).pre, (hi.psome p hp).snap⟩⟩
+      intro c' h'
+      dsimp only at h'
+      rcases h' with h' | h'
+      · exact hi.ck c' (Or.inl (List.mem_of_mem_eraseIdx h'))
+      · rcases List.mem_cons.1 h' with h'' | h''
+        · subst h''
+          exact hi.ck _ (Or.inl hcm)
+        · exact hi.ck c' (Or.inr h'')
+    · cases h
+  | kill w =>
+    simp only [step] at h
+    cases h
+    exact ⟨⟨hi.main, hi.own, hi.qwf, hi.hst, hi.ck⟩, hi.pnone,
+      fun p hp => ⟨(hi.psome p hp).npos, (hi.psome p hp).cnt, (hi.psome p hp).pre, (hi.psome p hp).snap⟩⟩
+  | restart n' job =>
+    simp only [step] at h
+    split at h
+    · cases h
+      refine inv_restore cfg s hi.toCore _ ?_ n' job
+      intro c' hc'
+      exact hi.ck c' (Or.inr (newest_mem hc'))
+    · cases h
+
+theorem inv_runFrom (cfg : Cfg σ) (wf : cfg.WF) (as : List Act) (s s' : State σ) (obs : List (Given σ))
+    (hi : Inv cfg s) (h : runFrom cfg s as = some (s', obs)) : Inv cfg s' := by
+  induction as generalizing s obs with
+  | nil =>
+    simp only [runFrom] at h
+    cases h
+    exact hi
+  | cons a as ih =>
+    simp only [runFrom] at h
+    split at h
+    · cases h
+    · rename_i s1 o1 hs1
+      split at h
+      · cases h
+      · rename_i s2 o2 hs2
+        cases h
+        exact ih s1 o2 (inv_step cfg wf s s1 a o1 hi hs1) hs2
+
+theorem inv_run (cfg : Cfg σ) (wf : cfg.WF) (as : List Act) (s : State σ) (obs : List (Given σ))
+    (h : run cfg as = some (s, obs)) : Inv cfg s :=
+  inv_runFrom cfg wf as (init cfg) s obs (inv_init cfg) h
+
+/-! ## consequences used by the property theorems -/
+
+theorem quiescent_log (cfg : Cfg σ) (s : State σ) (hi : Inv cfg s) (hq : Quiescent s) (k sp : Nat) :
+    idxOf sp (s.log (cfg.route s.n k) k) = routed cfg k sp (s.cursor sp) := by
+  have h := hi.main k sp
+  rw [projI_eq_nil_of_no_ev k sp _ (fun e => hq _ _ e), List.append_nil] at h
+  exact h
+
+theorem quiescent_count (cfg : Cfg σ) (s : State σ) (hi : Inv cfg s) (hq : Quiescent s) (sp i : Nat) :
+    (s.log (cfg.route s.n (cfg.key sp i)) (cfg.key sp i)).count (sp, i) = (if i < s.cursor sp then 1 else 0) := by
+  rw [count_pair, quiescent_log cfg s hi hq, count_routed]
+  simp
+
+theorem quiescent_mem (cfg : Cfg σ) (s : State σ) (hi : Inv cfg s) (hq : Quiescent s) (sp i o k : Nat)
+    (h : (sp, i) ∈ s.log o k) : o = cfg.route s.n k ∧ k = cfg.key sp i ∧ i < s.cursor sp := by
+  have ho : cfg.route s.n k = o := by
+    apply Classical.byContradiction
+    intro hne
+    rw [hi.own o k hne] at h
+    cases h
+  subst ho
+  have h1 : i ∈ idxOf sp (s.log (cfg.route s.n k) k) := mem_idxOf.2 h
+  rw [quiescent_log cfg s hi hq, mem_routed] at h1
+  exact ⟨rfl, h1.2.symm, h1.1⟩
+
+theorem deliver_spec (cfg : Cfg σ) (s s' : State σ) (hi : Inv cfg s) (r o : Nat) (gs : List (Given σ))
+    (hs : step cfg s (.deliver r o) = some (s', gs)) :
+    ∃ e, gs = [⟨o, e, foldLog cfg e.key (s.log o e.key)⟩] ∧ o = cfg.route s.n e.key ∧
+      e.key = cfg.key e.split e.idx ∧ s'.log o e.key = s.log o e.key ++ [(e.split, e.idx)] ∧
+      s'.st o e.key = cfg.h (foldLog cfg e.key (s.log o e.key)) e := by
+  simp only [step] at hs
+  split at hs
+  · rename_i e rest hq
+    cases hs
+    have hmem : Item.ev e ∈ s.queue r o := by rw [hq]; exact List.mem_cons_self
+    obtain ⟨he1, _, he3⟩ := hi.qwf r o e hmem
+    refine ⟨e, ?_, he1.symm, he3, ?_, ?_⟩
+    · rw [hi.hst o e.key]
+    · simp
+    · simp [hi.hst o e.key]
+  · cases hs
+
+/-- a decidable sufficient test for `Quiescent` in a reachable state: records only sit on channels inside the
+deployment, so it is enough to look at those -/
+theorem quiescent_of_check (cfg : Cfg σ) (wf : cfg.WF) (s : State σ) (hi : Inv cfg s) (hn : 0 < s.n)
+    (h : ((List.range s.n).all fun r => (List.range s.n).all fun o =>
+      (s.queue r o).all fun x => x == Item.bar) = true) : Quiescent s := by
+  intro r o e he
+  obtain ⟨h1, h2, _⟩ := hi.qwf r o e he
+  have ho : o < s.n := by rw [← h1]; exact wf.route_lt _ _ hn
+  have hr : r < s.n := by rw [← h2]; exact wf.assign_lt _ _ hn
+  have h3 := List.all_eq_true.1 (List.all_eq_true.1 (List.all_eq_true.1 h r (List.mem_range.2 hr)) o
+    (List.mem_range.2 ho)) _ he
+  simp at h3
+
+end Rxn.Pipeline
